@@ -86,7 +86,14 @@ func ConnectSession(ctx context.Context, cluster *Cluster, config SessionConfig)
 	case <-ctx.Done():
 		return nil, ctx.Err()
 	case <-session.connected:
-		return session, nil
+		// A failure is reported before `connected` is closed. When both are ready `select` picks either one, so the
+		// failure has to be checked for here; otherwise a session whose pools failed to connect is used.
+		select {
+		case err = <-session.failed:
+			return nil, err
+		default:
+			return session, nil
+		}
 	case err = <-session.failed:
 		return nil, err
 	}
